@@ -235,6 +235,8 @@ def run(ctx):
                         ok, why = entry_count_form(f)
                         if ok:
                             ctx.add(RULE, fn, sig, 'ok', 'result capacity = %r: a small multiple of the number of slots in use' % f, PROPS, line, det)
+                            if any(c < 0 for c in f.terms.values()):
+                                accounting_premise(ctx, fn, sig, f, line)
                         else:
                             ctx.add(RULE, fn, sig, 'violation', 'result capacity %r is not proportional to the current entry count: %s' % (f, why), PROPS, line, det)
                     elif is_result and f.kind == 'COUNTER':
@@ -265,6 +267,27 @@ def run(ctx):
     ctx.stat(RULE, allocation_sites=n)
     if n < 3:
         ctx.anchor_missing(RULE, 'allocation sites on the export path', PROPS, n, 3)
+
+
+LEAK_KINDS = ('grow-range', 'pool-mutation', 'grow-when-empty', 'release-once', 'clear-returns-all')
+
+
+def accounting_premise(ctx, fn, sig, f, line):
+    """`len(arena) - len(free list)` is the number of slots in use only if every slot of the arena that is not in the tree is on
+    the free list: growth puts every new slot there, nothing but the allocator takes one off, every slot cut from the tree is
+    released.  Those are POOL / DROP clauses of the same family (they ran before this rule); if one of them fails, the term
+    over-counts (never-used or leaked slots) and the capacity is no longer proportional to the entry count."""
+    fam = fn.family
+    broken = [i for i in ctx.instances if i.verdict == 'violation' and i.rule in ('POOL', 'DROP')
+              and i.key.split('|')[1].startswith(fam + '::')
+              and (i.rule == 'DROP' or any(i.key.split('|')[2].startswith(k) for k in LEAK_KINDS))]
+    if broken:
+        ctx.add(RULE, fn, sig + ':accounting', 'violation',
+                'the result capacity %r counts entries only if every slot of the arena that is not in use is on the free list; that premise is not '
+                'established for this pool: %s' % (f, '; '.join('%s (%s)' % (i.key, i.msg[:120]) for i in broken[:3])), PROPS, line,
+                {'broken_premises': [i.key for i in broken]})
+    else:
+        ctx.add(RULE, fn, sig + ':accounting', 'ok', 'the pool of this family keeps every slot in use or on the free list (POOL growth / allocation / release clauses and DROP hold), so %r is the number of slots in use' % f, PROPS, line)
 
 
 def entry_count_form(f):
